@@ -81,6 +81,10 @@ def extract_files(draw, tier):
         t = look_alike(wanted, draw)
         if t not in tables and t != 'IP0000T1':
             tables.append(t)
+    # the requested table has a layout but the file need not carry it (then the answer is: no rows)
+    indexed = draw(st.sampled_from([True, True, True, True, False]))
+    if not indexed:
+        tables = tables[1:] or ['IP%04dT1' % (int(wanted[2:6]) % 9000 + 1)]
     # a table may be listed under several sub-ids (the index maps sub-id -> table)
     owners = list(tables) + [draw(st.sampled_from(tables)) for _ in range(draw(st.sampled_from([0, 0, 1, 2, 3])))]
     subids = draw(st.lists(st.text(alphabet='0123456789ABCDEFGHIJKLMNOPQRSTUVWXYZ', min_size=3, max_size=3).filter(lambda s: s != 'REC'),
@@ -94,7 +98,7 @@ def extract_files(draw, tier):
     rows = []
     nrows = draw(st.one_of(uniform(0, 6), uniform(2, 25)))
     for i in range(nrows):
-        t = draw(st.sampled_from(tables + [wanted]))
+        t = draw(st.sampled_from(tables + ([wanted] if indexed else [])))
         ts = draw(st.text(alphabet='0123456789', min_size=10, max_size=10))
         code = draw(st.sampled_from(['A', 'I', ' ', 'X']))
         blen = draw(st.one_of(st.just(maxend - 19 + 3), uniform(0, maxend - 19 + 10)))
@@ -130,6 +134,8 @@ def expand(case):
 def long_run_files(draw):
     """few tables, long uninterrupted runs of rows of one table (real extract files group thousands of rows per table)"""
     case = draw(extract_files('quick'))
+    if not any(t == case['wanted'] for _, t in case['index']):
+        case['index'] = case['index'] + [('yyy', case['wanted'])]
     tables = sorted({t for _, t in case['index']})
     if len(tables) == 1:
         extra = 'IP%04dT1' % (int(case['wanted'][2:6]) % 9000 + 1)
@@ -314,7 +320,8 @@ def hyp_extracts(ctx, n):
                  labels=['extract', 'blocked' if case['blocked'] else 'vbs', 'layout:generated' if case['param_config'] else 'layout:packaged',
                          'codec:' + case['codec'], 'has-look-alike-table' if len({t for _, t in case['index']}) > 1 else 'single-table',
                          'table-under-several-sub-ids' if len(case['index']) > len({t for _, t in case['index']}) else 'one-sub-id-per-table',
-                         'has-empty-table' if case['empty_tables'] else 'all-tables-have-rows']
+                         'has-empty-table' if case['empty_tables'] else 'all-tables-have-rows',
+                         'wanted-table-in-index' if any(t == case['wanted'] for _, t in case['index']) else 'wanted-table-not-in-file']
                  + (['unblocked-file-looks-blocked'] if not case['blocked'] and any(looks_blocked(build(case, x)[0]) for x in (True, False)) else []))
         if len(ctx.samples) < 4 and foreign_between:
             ctx.sample({'codec': case['codec'], 'wanted': case['wanted'], 'index': case['index'], 'blocked': case['blocked'],
@@ -325,6 +332,7 @@ def hyp_extracts(ctx, n):
     harness.drive(ctx, extract_files(ctx.tier), body, n, salt='extracts')
     ctx.floor('has-look-alike-table', 0.3, 'extract')
     ctx.floor('unblocked-file-looks-blocked', 0.03, 'extract')
+    ctx.floor('wanted-table-not-in-file', 0.08, 'extract')
 
 
 def hyp_long_runs(ctx, n):
